@@ -74,13 +74,23 @@ func init() {
 		Assume: append([]string{"fee amounts are accepted under either truncation convention (floor or ceil of rate x amount)"}, dexAssume...),
 	}
 	props["C19"] = &PropSpec{
-		ID: "C19", Level: "exploration", Scenarios: []string{"dex"},
-		Oracles:    func(w *World) []Oracle { return []Oracle{newDexOracle(w, "C19")} },
+		ID: "C19", Level: "exploration", Scenarios: []string{"dex", "dex", "cdp"},
+		Oracles: func(w *World) []Oracle {
+			if w.Dex == nil {
+				return []Oracle{&c19ExtOracle{}}
+			}
+			return []Oracle{newDexOracle(w, "C19")}
+		},
 		Quick:      Budget{Runs: 320, MaxEvents: 150},
 		Thorough:   Budget{Runs: 3200, MaxEvents: 300},
 		Essential:  []string{"c19.epoch_checked"},
-		BatchProbe: []string{"c19.gauge_created", "c19.split_checked_with_remainder", "c19.epoch_checked", "c19.epoch_checked_with_remainder", "c19.epoch_paid_something", "c19.farmer_payout_checked", "c19.epoch_with_several_farmers", "c19.master_gauge_per_farmer_bound", "c19.master_gauge_with_several_farmers", "c19.custody_checked_with_active_gauges"},
+		BatchProbe: []string{"c19.gauge_created", "c19.split_checked_with_remainder", "c19.epoch_checked", "c19.epoch_checked_with_remainder", "c19.epoch_paid_something", "c19.farmer_payout_checked", "c19.epoch_with_several_farmers", "c19.master_gauge_per_farmer_bound", "c19.master_gauge_with_several_farmers", "c19.custody_checked_with_active_gauges", "c19.ext_program_custody_checked", "c19.ext_program_paid_out", "c19.ext_several_programs"},
 		TweakCfg: func(r *Rng, cfg *Config) {
+			if cfg.Scenario == "cdp" {
+				cfg.Knobs["ext_rewards_w"] = 1
+				cfg.Knobs["aux_locker"] = 1
+				return
+			}
 			cfg.Knobs["gauge_w"] = 6
 			cfg.Knobs["jump_w"] = 12
 			cfg.Knobs["n_gauges"] = 2
@@ -88,6 +98,6 @@ func init() {
 			cfg.Knobs["max_lifespan_s"] = 86400
 		},
 		Rule:   "one case = one seeded simulated run with liquidity gauges (deposit D, E epochs, D%E!=0 emphasised, D==E, E==1, master-pool flag) created by MsgCreateGauge, farmers joining/leaving/queued, oracle price moves and clock jumps of 12-80 h so that epochs trigger and are skipped; distinct = distinct digest of the (event, outcome) sequence; non-trivial = at least one triggered epoch of a funded gauge was checked",
-		Assume: append([]string{"only liquidity gauges and swap-fee gauges exist in the scenario; locker/vault/lend/stable-mint external programs are covered by their own scenarios", "per-farmer share bound is evaluated for gauges funded in a denom that is in no pair; for master-pool gauges with the implicit child list (every other enabled pool of the app) the bound is min(value in the master pool, sum of values in the child pools) over the sum of the same quantity, values re-computed from reserves, share supply and the market module's price with +-1 unit brackets; master gauges with an explicit child list are checked for epoch cap, cumulative bound and custody only"}, dexAssume...),
+		Assume: append([]string{"dex runs carry liquidity and swap-fee gauges; a third of the runs are cdp runs with locker and vault external reward programmes (custody >= recorded undistributed remainder, remainder within [0, deposit]); lend and stable-mint external programmes are not exercised", "per-farmer share bound is evaluated for gauges funded in a denom that is in no pair; for master-pool gauges with the implicit child list (every other enabled pool of the app) the bound is min(value in the master pool, sum of values in the child pools) over the sum of the same quantity, values re-computed from reserves, share supply and the market module's price with +-1 unit brackets; master gauges with an explicit child list are checked for epoch cap, cumulative bound and custody only"}, dexAssume...),
 	}
 }
